@@ -213,6 +213,51 @@ def explore_c15(rng, tier, res, deep=False):
                                        + (" (compiled query objects kept from an earlier application to the same container object, since edited in place)" if reuse else "")})
         carry = (q, doc, kept) if kept else None
         res.sample({"query": q})
+    fresh_env_invalid(rng, tier, res, g)
+
+
+ALMOST_VALID = ["$[?@.a == (@.b)]", "$[?(@.a) == 1]", "$[?(@.a) < (@.b)]", "$[?1 == (@.a)]", "$[?@.a == 1 && (@.b) != 2]", "$[?!@.a == 1]", "$[?@.a == !@.b]",
+                "$[?@.a >= (1)]", "$[?(@.a || @.b) == true]", "$[?@.a == 1 == 1]", "$[?@.a != (@.*)]", "$[?@.* == 1]", "$[?count(@.a)]", "$[?length(@.*) == 1]",
+                "$[?nope(@)]", "$[?true]", "$[?@.a == 01]", "$[9007199254740992]", "$[", "$.a b", "$ ", " $", "$[?@.a &&]", "$[?match(@.a)]", "$['\\x']", "$[1:2:3:4]"]
+
+
+def fresh_env_invalid(rng, tier, res, g):
+    """"When the query is invalid, every entry point raises the same error class" — also the FIRST time an environment
+    sees the text: a fresh environment (and a fresh subclass instance) per text, the entry points taken in several
+    orders, each outcome compared with what compile() gave on yet another fresh environment."""
+    import jsonpath_rfc9535 as jp
+
+    texts = list(ALMOST_VALID)
+    for _ in range(40 if tier != "thorough" else 600):
+        texts.append(gen.mutate(rng, g.query()))
+    doc = [{"a": 1, "b": 1}, {"a": 1, "b": 2}, {"b": [1]}, {"a": [1, 2]}]
+
+    def cls(thunk):
+        try:
+            thunk()
+            return "ok"
+        except jp.JSONPathError as exc:
+            return type(exc).__name__
+        except RecursionError:
+            return "ok"
+        except Exception as exc:  # noqa: BLE001
+            return "PY:" + type(exc).__name__
+
+    orders = [("compile", "find", "finditer", "find_one", "compile"), ("find", "compile", "find_one", "finditer"), ("find_one", "finditer", "find", "compile"),
+              ("finditer", "find_one", "compile", "find")]
+    for ti, q in enumerate(texts):
+        want = cls(lambda: jp.JSONPathEnvironment().compile(q))
+        for order in (orders if ti < len(ALMOST_VALID) else orders[ti % 4: ti % 4 + 1]):
+            e = type("Fresh", (jp.JSONPathEnvironment,), {})() if ti % 2 else jp.JSONPathEnvironment()
+            res.evaluations += 1
+            for nm in order:
+                got = cls({"compile": lambda: e.compile(q), "find": lambda: e.find(q, doc), "finditer": lambda: list(e.finditer(q, doc)),
+                           "find_one": lambda: e.find_one(q, doc)}[nm])
+                if want != "ok" and got != want or want == "ok" and got not in ("ok", "JSONPathRecursionError"):
+                    res.violations.append({"property": "C15", "query": q, "document": doc, "observed": {f"env.{nm}": got, "order": list(order)},
+                                           "expected": want, "what": "on a fresh environment, an entry point does not give the outcome class compile() gives on a fresh environment"})
+                    break
+    res.count("fresh-env-texts", len(texts))
 
 
 # ---------------------------------------------------------------------------------------------
@@ -451,6 +496,7 @@ def explore_c14(rng, tier, res, deep=False):
         res.nontrivial.add(tuple(str(h) for h in hist))
         res.sample({"history": [str(h)[:80] for h in hist[:8]]})
         pending.append(("hist\t(ops " + " ".join(ops_wire) + ")", outs_real, hist))
+    subclass_alongside(rng, tier, res)
     try:
         reps = model.run_batch_parallel([p[0] for p in pending])
     except model.ModelError as err:
@@ -464,6 +510,68 @@ def explore_c14(rng, tier, res, deep=False):
             idx = next((i for i in range(min(len(a), len(b))) if a[i] != b[i]), min(len(a), len(b)))
             res.mismatches.append({"op": "hist", "step": idx, "history": [str(h)[:120] for h in hist[: idx + 1]][-6:],
                                    "model": a[idx][:200] if idx < len(a) else None, "real": b[idx][:200] if idx < len(b) else None})
+
+
+def subclass_alongside(rng, tier, res):
+    """"Subclassing an environment does not change other environments or the module functions": a subclass whose class
+    attributes differ (nondeterministic = True, another depth limit) is used on the SAME query texts before, between
+    and after the default environment, the module functions and queries compiled earlier; those must keep returning
+    the RFC nodelist in document order (judged by the oracle), and the subclass a reordering of it."""
+    import jsonpath_rfc9535 as jp
+
+    class ND(jp.JSONPathEnvironment):
+        nondeterministic = True
+
+    class Shallow(jp.JSONPathEnvironment):
+        max_recursion_depth = 1
+
+    wide = {"k%02d" % i: {"a": i, "s": "x%d" % i, "l": [i]} for i in range(12)}
+    wide_arr = [{"a": i, "s": "x%d" % i} for i in range(9)]
+    texts = ["$[?@.a]", "$..[?@]", "$[?@.l[0]]", "$[?match(@.s, 'x[0-9]+')]", "$[?!@.nosuch]", "$[?@.a && !@.zz]", "$.*", "$..*", "$[?@.a >= 0]", "$[?count(@.*) > 0]",
+             "$[?search(@.s, '1') || @.nosuch]", "$[?@.l]", "$.*.a", "$[?@.a || @.b]", "$..[?@.a]", "$[?length(@.s) > 1]"]
+    eenv = real.enc_env(real.DEFAULT_ENVDESC)
+    lines, recs = [], []
+    for ti, q in enumerate(texts):
+        for doc in (wide, wide_arr):
+            nd, sh, det = ND(), Shallow(), jp.JSONPathEnvironment()
+            early = det.compile(q)
+            steps = []
+            order = ["nd", "det", "module", "early", "shallow", "nd", "det"] if ti % 2 == 0 else ["det", "nd", "module", "nd", "early", "shallow", "det"]
+            for who in order:
+                try:
+                    if who == "nd":
+                        r = ("nd", enc_list(nd.find(q, doc)))
+                    elif who == "det":
+                        r = ("det", enc_list(det.find(q, doc)))
+                    elif who == "module":
+                        r = ("module", enc_list(jp.find(q, doc)))
+                    elif who == "early":
+                        r = ("early", enc_list(early.find(doc)))
+                    else:
+                        try:
+                            r = ("shallow", enc_list(sh.find(q, doc)))
+                        except jp.JSONPathRecursionError:
+                            r = ("shallow", None)
+                except jp.JSONPathError as exc:
+                    r = (who, "err " + type(exc).__name__)
+                steps.append(r)
+            recs.append((q, doc, order, steps))
+            lines.append(f"rfc.query\t{eenv}\t{wire.enc_str(q)}\t{wire.enc_json(doc)}")
+    for (q, doc, order, steps), rep in zip(recs, model.run_batch_parallel(lines)):
+        res.evaluations += 1
+        if rep.split("\t")[0] != "valid":
+            continue
+        want = rep.split("\t", 1)[1] if "\t" in rep else ""
+        for who, got in steps:
+            if got is None:
+                continue
+            ok = (sorted(got.split(" ")) == sorted(want.split(" "))) if who == "nd" else (got == want)
+            if not ok:
+                res.violations.append({"property": "C14", "query": q, "document": doc, "observed": {who: got[:300]}, "expected": want[:300],
+                                       "history": ["environments: a nondeterministic subclass, a subclass with depth limit 1, a default environment, the module functions; the same text through: " + ", ".join(order)],
+                                       "what": "with a subclassed environment in use alongside, " + ("the subclass does not return the RFC nodes" if who == "nd" else "an entry point that is not the subclass no longer returns the RFC nodelist in document order")})
+                break
+    res.count("subclass-alongside", len(lines))
 
 
 # ---------------------------------------------------------------------------------------------
@@ -522,7 +630,26 @@ def explore_c16(rng, tier, res, deep=False):
             v = [v, 1] if rng.random() < 0.5 else {"a": v, "b": 0}
         return v
 
+    class Swapped(jp.JSONPathEnvironment):
+        """same function NAMES, other bodies: length() is constantly 7 here"""
+
+        def setup_function_extensions(self):
+            super().setup_function_extensions()
+            self.function_extensions["length"] = real.make_probe(["V"], "V", "const")
+
+    class Swapped2(jp.JSONPathEnvironment):
+        def setup_function_extensions(self):
+            super().setup_function_extensions()
+            self.function_extensions["length"] = real.make_probe(["V"], "V", "pick0")
+            self.function_extensions["count"] = real.make_probe(["N"], "V", "const")
+
     env_a, env_b, env_c = jp.JSONPathEnvironment(), Low(), Mid()
+    env_sw, env_sw2 = Swapped(), Swapped2()
+    env_a_late = jp.JSONPathEnvironment()  # a stock environment constructed AFTER the ones with other registries
+    reg_queries = ["$[?length(@) >= 2]", "$[?length(@) == 7]", "$..[?length(@.a) == 7]", "$[?length(@) == @]", "$[?count(@.*) == 7]", "$[?length(@) > 0 && count(@.*) >= 0]",
+                   "$..[?length(@) == 1]"]
+    reg_docs = [["é", "ab", "日本", "xyz", "q", "ü", "mn", 7, [1, 2], {"a": "abcdefg"}, [1, 2, 3, 4, 5, 6, 7]], {"k": "abcdefg", "l": [7, "7", "ab"], "m": {"a": [1]}}]
+    round_no = -1
     pool = ["$..*", "$[?@..*]", "$..[?@]", "$[?@[?@]]", "$.*", "$..a", "$[*][*]", "$[?@.a || @[0]]",
             # the query argument inside a filter: each iterator has its own `$`
             "$[?@ == $[0]]", "$[?@ != $[-1]]", "$.*[?@ == $.a]", "$[?$[1]]", "$[?@.a == $.a]", "$..[?@ == $.b]", "$[?count($[*]) > 2]", "$.a[?@ == $.b]"]
@@ -535,13 +662,17 @@ def explore_c16(rng, tier, res, deep=False):
         # "spine" rounds: the same compiled descendant query, on an environment with a low limit, over values nested
         # close to that limit: anything the traversal keeps per query object rather than per iterator (a depth
         # counter, a work list) makes the iterators' depths add up or reset each other
-        spine_round = rng.random() < 0.3
+        round_no += 1
+        # "registry" rounds: environments that give the same function names other bodies, iterators of each alive at once
+        # (the first rounds of every run, then now and then): a call is evaluated with the registry of ITS environment
+        reg_round = round_no < 6 or rng.random() < 0.1
+        spine_round = (not reg_round) and rng.random() < 0.3
         if spine_round:
             spine_env = rng.choice([env_b, env_c])
             shared_q = rng.choice(["$..*", "$..a", "$..[0]", "$..[?@]", "$..[?@.a]", "$..[*]", "$[?@..a]"])
             shared_c = (spine_env, spine_env.compile(shared_q))
         # "twin" rounds: one compiled query with `$` inside a filter over values that Python's == cannot tell apart
-        twin_round = (not spine_round) and rng.random() < 0.25
+        twin_round = (not spine_round) and (not reg_round) and rng.random() < 0.25
         twin_docs = []
         if twin_round:
             base = rng.choice([{"k": True, "xs": [0, 1, True, False, "1"]}, [True, 1, 1, 0, False], {"a": 1, "b": [1, True, 0]},
@@ -564,6 +695,10 @@ def explore_c16(rng, tier, res, deep=False):
                 tw = sweep_mod.py_equal_twin(rng, specs[0][1])
                 if tw is not None:
                     d = tw
+            if reg_round:
+                e = [env_a, env_sw, env_sw2, env_a_late][(i + round_no) % 4]
+                q = reg_queries[(round_no + (0 if round_no % 2 else i)) % len(reg_queries)]
+                d = reg_docs[(round_no // 2) % len(reg_docs)]
             if twin_round:
                 e, q, d = env_a, shared_q, twin_docs[i % len(twin_docs)]
             if spine_round:
@@ -600,7 +735,11 @@ def explore_c16(rng, tier, res, deep=False):
             abandon = rng.random() < 0.3
             if abandon:
                 sched = sched[: rng.randint(1, len(sched))]
-            for i in sched:
+            build_at = rng.randrange(len(sched) + 1) if (reg_round or rng.random() < 0.1) else -1
+            for step_no, i in enumerate(sched):
+                if step_no == build_at:
+                    # an environment constructed while iterators are half-way (any class): it sets up its own registry only
+                    rng.choice([jp.JSONPathEnvironment, Swapped, Swapped2, Low])()
                 try:
                     n = next(its[i])
                     got[i].append(wire.enc_node(n.location, n.value))
